@@ -1,3 +1,347 @@
+//! C17: the xq / xe example tools, observed from outside (exit status, stderr, stdout re-read by libxml2).
+use crate::model::{self, APiece, Attr, Doc, Elem, Gen, GenCfg, Misc, Node, Style};
+use crate::props::parse::ref_disagrees;
+use crate::props::xpathp::{ref_eval, Outcome};
+use crate::rng::Rng;
+use crate::xp::{self, RKind, RTree};
 use crate::Ctx;
-pub fn c17(_: &mut Ctx) {}
-pub fn witness(_: &[String], _: &mut Ctx) -> Option<String> { None }
+use std::io::Write;
+use std::process::{Command, Stdio};
+
+pub struct Run { pub code: Option<i32>, pub signal: Option<i32>, pub stdout: String, pub stderr: String, pub timed_out: bool }
+
+fn tool(name: &str) -> std::path::PathBuf {
+    if let Ok(d) = std::env::var("XV_EXAMPLES") { return std::path::Path::new(&d).join(name); }
+    let exe = std::env::current_exe().unwrap_or_default();
+    // /verif/target/<profile>/xv -> /verif/target/repo/debug/examples/<name>
+    exe.parent().and_then(|p| p.parent()).map(|t| t.join("repo").join("debug").join("examples").join(name)).unwrap_or_else(|| name.into())
+}
+
+pub fn run_tool(name: &str, args: &[String], stdin: Option<&str>) -> Result<Run, String> {
+    let mut c = Command::new("timeout");
+    c.arg("--signal=KILL").arg("20").arg(tool(name)).args(args).env("RUST_BACKTRACE", "0").stdin(Stdio::piped()).stdout(Stdio::piped()).stderr(Stdio::piped());
+    let mut child = c.spawn().map_err(|e| format!("spawn: {}", e))?;
+    if let Some(mut si) = child.stdin.take() { if let Some(s) = stdin { let _ = si.write_all(s.as_bytes()); } }
+    let out = child.wait_with_output().map_err(|e| format!("wait: {}", e))?;
+    use std::os::unix::process::ExitStatusExt;
+    let code = out.status.code(); let signal = out.status.signal();
+    Ok(Run { code, signal, stdout: String::from_utf8_lossy(&out.stdout).to_string(), stderr: String::from_utf8_lossy(&out.stderr).to_string(), timed_out: code == Some(137) || signal == Some(9) })
+}
+
+/// the way a tool ended: None = acceptable for the expectation, Some(symptom) otherwise
+fn ending(r: &Run, expect_success: bool) -> Option<String> {
+    if r.timed_out { return Some("timeout".into()); }
+    if let Some(s) = r.signal { return Some(format!("killed-by-signal-{}", s)); }
+    if r.stderr.contains("panicked at") { return Some("panic".into()); }
+    match (r.code, expect_success) {
+        (Some(0), true) => None,
+        (Some(0), false) => Some("exit-0-on-unusable-input".into()),
+        (Some(_), true) => Some("error-exit-on-usable-input".into()),
+        (Some(_), false) => if r.stderr.trim().is_empty() { Some("no-error-message".into()) } else { None },
+        (None, _) => Some("no-exit-status".into()),
+    }
+}
+
+// ------------------------------------------------------------------------------------------------
+// model-level editing
+
+fn strip_newlines(s: &str) -> String { s.replace(['\n', '\r'], " ") }
+fn strip_elem(e: &mut Elem) {
+    for a in e.attrs.iter_mut() { for p in a.value.iter_mut() { match p { APiece::Text(t) => *t = strip_newlines(t), APiece::CharRef(c, _) => if *c == '\n' || *c == '\r' { *c = ' ' }, _ => {} } } }
+    for c in e.children.iter_mut() { match c { Node::Elem(x) => strip_elem(x), Node::Text(t) | Node::CData(t) | Node::Comment(t) => *t = strip_newlines(t), Node::PI(_, Some(d)) => *d = strip_newlines(d), Node::CharRef(ch, _) => if *ch == '\n' || *ch == '\r' { *ch = ' ' }, _ => {} } }
+}
+/// documents for xq: one output line per selected node, so no line ends inside nodes
+fn strip_doc(d: &mut Doc) {
+    strip_elem(&mut d.root);
+    for m in d.pre.iter_mut().chain(d.mid.iter_mut()).chain(d.post.iter_mut()) { match m { Misc::Comment(c) => *c = strip_newlines(c), Misc::PI(_, Some(x)) => *x = strip_newlines(x), _ => {} } }
+    if let Some(dt) = d.doctype.as_mut() { if let Some(ds) = dt.subset.as_mut() { for dc in ds.iter_mut() { match dc { model::Decl::Comment(c) => *c = strip_newlines(c), model::Decl::PI(_, Some(x)) => *x = strip_newlines(x), _ => {} } } } }
+}
+
+/// the element at a locator ("/k/i/j"), navigating merged child indexes exactly as RTree::build numbers them
+fn elem_at_mut<'a>(doc: &'a mut Doc, ents: &model::Entities, loc: &str) -> Option<&'a mut Elem> {
+    let mut parts = loc.split('/').filter(|p| !p.is_empty()).map(|p| p.parse::<usize>().ok());
+    let top = parts.next()??;
+    if top != doc.pre.len() + doc.mid.len() { return None; }
+    let mut cur = &mut doc.root;
+    for p in parts {
+        let want = p?;
+        let mut idx = 0usize; let mut run: Option<String> = None; let mut found: Option<usize> = None;
+        for (k, c) in cur.children.iter().enumerate() {
+            let piece = match c { Node::Text(s) | Node::CData(s) => Some(model::norm_eol(s)), Node::CharRef(ch, _) => Some(ch.to_string()), Node::EntRef(n) => Some(ents.content_value(n)), _ => None };
+            if let Some(pc) = piece { run.get_or_insert_with(String::new).push_str(&pc); continue; }
+            if let Some(s) = run.take() { if !s.is_empty() { idx += 1; } }
+            if idx == want { if let Node::Elem(_) = c { found = Some(k); } break; }
+            idx += 1;
+        }
+        let k = found?;
+        cur = match &mut cur.children[k] { Node::Elem(e) => e, _ => return None };
+    }
+    Some(cur)
+}
+
+#[derive(Debug)]
+pub enum EditErr { Refuse(&'static str), Model(String) }
+
+fn frag_as_pieces(frag: &[Node]) -> Option<Vec<APiece>> {
+    let mut v = vec![];
+    for n in frag { match n { Node::Text(t) => v.push(APiece::Text(t.clone())), Node::CharRef(c, h) => v.push(APiece::CharRef(*c, *h)), Node::EntRef(n) => v.push(APiece::EntRef(n.clone())), _ => return None } }
+    Some(v)
+}
+
+/// what `xe --xpath <selecting these nodes> --value <frag>` must produce
+pub fn model_edit(doc: &Doc, tree: &RTree, selected: &[usize], frag: &[Node]) -> Result<Doc, EditErr> {
+    let mut out = doc.clone();
+    let ents = model::Entities::of(doc);
+    let mut done: Vec<usize> = vec![];
+    for &n in selected {
+        if done.iter().any(|&d| tree.is_ancestor(d, n)) { continue; }
+        let nd = &tree.nodes[n];
+        match nd.kind {
+            RKind::Elem => { let e = elem_at_mut(&mut out, &ents, &nd.locator).ok_or_else(|| EditErr::Model(format!("cannot navigate to {}", nd.locator)))?; e.children = frag.to_vec(); model::normalize(e); done.push(n); }
+            RKind::Attr => {
+                let pieces = frag_as_pieces(frag).ok_or(EditErr::Refuse("markup in an attribute value"))?;
+                let (path, qn) = nd.locator.split_once('@').ok_or_else(|| EditErr::Model("attribute locator".into()))?;
+                let e = elem_at_mut(&mut out, &ents, path).ok_or_else(|| EditErr::Model(format!("cannot navigate to {}", path)))?;
+                let a = e.attrs.iter_mut().find(|a| match &a.prefix { Some(p) => format!("{}:{}", p, a.local) == qn, None => a.local == qn }).ok_or_else(|| EditErr::Model(format!("no attribute {}", qn)))?;
+                a.value = pieces;
+            }
+            RKind::Root => {
+                let mut elems = frag.iter().filter(|n| matches!(n, Node::Elem(_)));
+                let root = match (elems.next(), elems.next()) { (Some(Node::Elem(e)), None) => e.clone(), _ => return Err(EditErr::Refuse("a document needs exactly one element")) };
+                if frag.iter().any(|n| matches!(n, Node::Text(_) | Node::CData(_) | Node::CharRef(..) | Node::EntRef(_))) { return Err(EditErr::Refuse("character data at document level")); }
+                let pos = frag.iter().position(|n| matches!(n, Node::Elem(_))).unwrap();
+                let misc = |n: &Node| match n { Node::Comment(c) => Some(Misc::Comment(c.clone())), Node::PI(t, d) => Some(Misc::PI(t.clone(), d.clone())), _ => None };
+                out.pre = frag[..pos].iter().filter_map(misc).collect(); out.mid = vec![]; out.doctype = None; out.root = root; out.post = frag[pos + 1..].iter().filter_map(misc).collect();
+                done.push(n);
+            }
+            _ => return Err(EditErr::Refuse("not an element, attribute or document node")),
+        }
+    }
+    Ok(out)
+}
+
+// ------------------------------------------------------------------------------------------------
+// generators
+
+const FRAG_TEXTS: &[&str] = &["new", "x y", "\u{e9}\u{1d4b3}", " ", "a]b", "1 > 0", "q'q", "d\"d", "-", "v"];
+
+fn gen_fragment(r: &mut Rng, kind: usize) -> (Vec<Node>, &'static str) {
+    let leaf = |r: &mut Rng, n: &str| Node::Elem(Elem { local: n.into(), attrs: if r.chance(1, 2) { vec![Attr { prefix: None, local: "k".into(), value: vec![APiece::Text(r.pick_s(FRAG_TEXTS).replace('"', "").to_string())] }] } else { vec![] }, children: if r.chance(1, 2) { vec![Node::Text(r.pick_s(FRAG_TEXTS).to_string())] } else { vec![] }, ..Default::default() });
+    match kind % 9 {
+        0 => (vec![], "empty"),
+        1 => (vec![Node::Text(r.pick_s(FRAG_TEXTS).to_string())], "text"),
+        2 => (vec![leaf(r, "z")], "element"),
+        3 => (vec![Node::Text("t1".into()), leaf(r, "z"), Node::Text("t2".into()), Node::Elem(Elem { local: "y".into(), children: vec![leaf(r, "w"), Node::Comment("in".into())], ..Default::default() })], "mixed-tree"),
+        4 => (vec![Node::CData(r.pick_s(&["<c>&", "x", "]] >", ""]).to_string())], "cdata"),
+        5 => (vec![Node::Comment(r.pick_s(&["c", " a - b ", ""]).to_string()), leaf(r, "z")], "comment+element"),
+        6 => (vec![Node::Text("a".into()), Node::EntRef(r.pick_s(&["lt", "amp", "gt", "quot", "apos"]).to_string()), Node::CharRef(*r.pick(&['A', '<', '\u{e9}', ' ']), r.chance(1, 2)), Node::Text("b".into())], "text+references"),
+        7 => (vec![Node::PI("pi".into(), Some("d".into())), leaf(r, "z")], "pi+element"),
+        _ => (vec![Node::Elem(Elem { prefix: Some("n".into()), local: "q".into(), nsdecls: vec![(Some("n".into()), "urn:n".into()), (None, "urn:d".into())], attrs: vec![Attr { prefix: Some("n".into()), local: "k".into(), value: vec![APiece::Text("1".into())] }], children: vec![Node::Elem(Elem { local: "in".into(), ..Default::default() })] })], "namespaced-element"),
+    }
+}
+
+fn cli_cfg() -> GenCfg { let mut c = GenCfg::xpath(); c.attlist_effective = false; c.entities = false; c.max_nodes = 20; c }
+
+fn elem_names(tree: &RTree) -> Vec<String> { let mut v: Vec<String> = vec![]; for n in &tree.nodes { if n.kind == RKind::Elem && n.prefix.is_none() && n.uri.is_none() && !v.contains(&n.local) { v.push(n.local.clone()); } } v }
+
+fn parse_expr(s: &str, tree: &RTree) -> Option<xp::Expr> {
+    // the small set of selecting paths used here, as ASTs for the reference evaluator
+    use xp::{Axis, Expr, Start, Step, Test};
+    let dstep = |test: Test, axis: Axis| Step { axis, test, preds: vec![], dslash: true };
+    let _ = tree;
+    if s == "/" { return Some(Expr::Path(Start::Root, vec![])); }
+    if s == "//*" { return Some(Expr::Path(Start::Root, vec![dstep(Test::Any, Axis::Child)])); }
+    if s == "//text()" { return Some(Expr::Path(Start::Root, vec![dstep(Test::Text, Axis::Child)])); }
+    if s == "//comment()" { return Some(Expr::Path(Start::Root, vec![dstep(Test::Comment, Axis::Child)])); }
+    if s == "//processing-instruction()" { return Some(Expr::Path(Start::Root, vec![dstep(Test::PI, Axis::Child)])); }
+    if s == "//node()" { return Some(Expr::Path(Start::Root, vec![dstep(Test::Node, Axis::Child)])); }
+    if let Some(k) = s.strip_prefix("(//*)[").and_then(|x| x.strip_suffix(']')) { return Some(Expr::Path(Start::Filter(Box::new(Expr::Path(Start::Root, vec![dstep(Test::Any, Axis::Child)])), vec![Expr::Num(k.to_string())]), vec![])); }
+    if let Some(n) = s.strip_prefix("//@") { return Some(Expr::Path(Start::Root, vec![dstep(Test::Name(None, n.to_string()), Axis::Attribute)])); }
+    if let Some(n) = s.strip_prefix("count(//").and_then(|x| x.strip_suffix(')')) { return Some(Expr::Func("count".into(), vec![Expr::Path(Start::Root, vec![dstep(if n == "*" { Test::Any } else { Test::Name(None, n.to_string()) }, Axis::Child)])])); }
+    if let Some(n) = s.strip_prefix("string(//").and_then(|x| x.strip_suffix(')')) { return Some(Expr::Func("string".into(), vec![Expr::Path(Start::Root, vec![dstep(Test::Name(None, n.to_string()), Axis::Child)])])); }
+    if let Some(n) = s.strip_prefix("boolean(//").and_then(|x| x.strip_suffix(')')) { return Some(Expr::Func("boolean".into(), vec![Expr::Path(Start::Root, vec![dstep(Test::Name(None, n.to_string()), Axis::Child)])])); }
+    if let Some(n) = s.strip_prefix("//") { return Some(Expr::Path(Start::Root, vec![dstep(Test::Name(None, n.to_string()), Axis::Child)])); }
+    None
+}
+
+fn hexs(s: &str) -> String { crate::util::hex_encode(s) }
+
+// ------------------------------------------------------------------------------------------------
+
+pub fn c17(ctx: &mut Ctx) {
+    if !tool("xq").exists() || !tool("xe").exists() { ctx.inconclusive("tools_not_built"); return; }
+    let n: u64 = if ctx.thorough { 40_000 } else { 1_200 };
+    for i in 0..n {
+        if !ctx.mine(i) { continue; }
+        let mut r = ctx.rng(i);
+        ctx.begin(i, "");
+        let mut doc = { let mut g = Gen::new(&mut r, cli_cfg()); g.doc() };
+        strip_doc(&mut doc);
+        let text = model::render(&doc, &mut r, Style { minimal: false });
+        let tree = RTree::build(&doc);
+        let names = elem_names(&tree);
+        let nelems = tree.nodes.iter().filter(|n| n.kind == RKind::Elem).count();
+        let attr_names: Vec<String> = { let mut v = vec![]; for n in &tree.nodes { if n.kind == RKind::Attr && n.prefix.is_none() && !v.contains(&n.local) { v.push(n.local.clone()); } } v };
+        // a selecting path
+        let (sel_kind, expr): (&str, String) = match r.below(12) {
+            0 | 1 | 2 if !names.is_empty() => ("element-by-name", format!("//{}", r.pick(&names))),
+            3 | 4 => ("element-by-position", format!("(//*)[{}]", r.range(1, nelems.max(1)))),
+            5 => ("all-elements", "//*".to_string()),
+            6 | 7 if !attr_names.is_empty() => ("attribute", format!("//@{}", r.pick(&attr_names))),
+            8 => ("document", "/".to_string()),
+            9 => ("none", "//nomatch".to_string()),
+            10 => ("non-container", r.pick_s(&["//text()", "//comment()", "//processing-instruction()"]).to_string()),
+            _ => ("scalar", if names.is_empty() { "count(//*)".to_string() } else { format!("{}(//{})", r.pick_s(&["count", "string", "boolean"]), r.pick(&names)) }),
+        };
+        // every fourth case selects by namespace through a caller binding (--setns)
+        let uris: Vec<String> = { let mut v: Vec<String> = vec![]; for n in &tree.nodes { if n.kind == RKind::Elem { if let Some(u) = &n.uri { if !v.contains(u) && !u.contains(' ') { v.push(u.clone()); } } } } v };
+        let (sel_kind, expr, ns): (&str, String, Vec<(String, String)>) = if i % 4 == 3 && !uris.is_empty() { ("by-namespace", "//c0:*".to_string(), vec![("c0".to_string(), r.pick(&uris).clone())]) } else { (sel_kind, expr, vec![]) };
+        let ast = if sel_kind == "by-namespace" { xp::Expr::Path(xp::Start::Root, vec![xp::Step { axis: xp::Axis::Child, test: xp::Test::NsAny("c0".into()), preds: vec![], dslash: true }]) } else { match parse_expr(&expr, &tree) { Some(a) => a, None => { ctx.inconclusive("expression_outside_harness_table"); continue; } } };
+        let exp = ref_eval(&tree, &ast, &ns, None);
+        let via_file = r.chance(1, 3);
+        let path = format!("{}/c17-{}-{}.xml", std::env::temp_dir().display(), std::process::id(), i);
+        if via_file { if std::fs::write(&path, &text).is_err() { ctx.inconclusive("cannot_write_temp_file"); continue; } }
+        let base_args = |extra: Vec<String>| -> Vec<String> { let mut a = extra; for (p, u) in &ns { a.push("--setns".into()); a.push(format!("xmlns:{}={}", p, u)); } if via_file { a.push(path.clone()); } a };
+        let stdin = if via_file { None } else { Some(text.as_str()) };
+        let ctxs = |args: &[String]| format!("args {:?} :: doc {}", args, text);
+
+        if i % 2 == 0 {
+            // ---- xq: prints exactly the selection
+            let args = base_args(vec!["--xpath".into(), expr.clone(), "--no-indent".into()]);
+            ctx.evaluations += 1; ctx.count(&format!("xq/{}", sel_kind)); ctx.nontrivial(&format!("xq|{}|{}", expr, text));
+            if i % 97 == 0 { ctx.sample(&format!("xq {:?} < {}", args, crate::util::truncate(&text, 200))); }
+            match run_tool("xq", &args, stdin) {
+                Err(e) => ctx.inconclusive(&format!("spawn_failed:{}", crate::util::truncate(&e, 20))),
+                Ok(run) => {
+                    if let Some(sym) = ending(&run, true) { ctx.violation(i, &format!("C17/cli/xq/{}/-/{}", sel_kind, sym), &format!("status {:?} signal {:?} stderr {} :: {}", run.code, run.signal, crate::util::truncate(&run.stderr, 200), ctxs(&args)), &[("doc", &text), ("expr", &expr), ("args", &hexs(&args.join("\u{1}")))]); }
+                    else if let Some((sym, detail)) = xq_output_check(&doc, &tree, &exp, &run.stdout) { ctx.violation(i, &format!("C17/cli/xq/{}/-/{}", sel_kind, sym), &format!("{} :: stdout {:?} :: {}", detail, crate::util::truncate(&run.stdout, 300), ctxs(&args)), &[("doc", &text), ("expr", &expr)]); }
+                    else { ctx.count("xq/agree"); }
+                    // indented output: must be produced without crash
+                    if i % 6 == 0 { let a2 = base_args(vec!["--xpath".into(), expr.clone()]); if let Ok(r2) = run_tool("xq", &a2, stdin) { ctx.count("xq/indented"); if let Some(sym) = ending(&r2, true) { ctx.violation(i, &format!("C17/cli/xq/{}/indented/{}", sel_kind, sym), &ctxs(&a2), &[("doc", &text), ("expr", &expr)]); } } }
+                }
+            }
+        } else {
+            // ---- xe: rewrites exactly the selection
+            let fk = r.below(9); let (frag, frag_kind) = gen_fragment(&mut r, fk);
+            let minimal = r.chance(1, 2); let value = model::render_nodes(&frag, &mut r, Style { minimal });
+            let args = base_args(vec!["--xpath".into(), expr.clone(), "--value".into(), value.clone(), "--no-indent".into()]);
+            ctx.evaluations += 1; ctx.count(&format!("xe/{}/{}", sel_kind, frag_kind)); ctx.nontrivial(&format!("xe|{}|{}|{}", expr, value, text));
+            if i % 97 == 1 { ctx.sample(&format!("xe {:?} < {}", args, crate::util::truncate(&text, 200))); }
+            let expected: Result<Doc, EditErr> = match &exp { Outcome::Nodes(_) => { let sel: Vec<usize> = match crate::props::xpathp::ref_eval_dev(&tree, &ast, &[], None, xp::Dev::default()) { _ => selected_indexes(&tree, &ast, &ns) }; model_edit(&doc, &tree, &sel, &frag) } _ => Err(EditErr::Refuse("the path selects a value, not nodes")) };
+            match run_tool("xe", &args, stdin) {
+                Err(e) => ctx.inconclusive(&format!("spawn_failed:{}", crate::util::truncate(&e, 20))),
+                Ok(run) => {
+                    match &expected {
+                        Err(EditErr::Model(m)) => { ctx.inconclusive("model_edit_failed"); if ctx.notes.len() < 6 { ctx.notes.push(format!("{} :: {}", m, ctxs(&args))); } }
+                        Err(EditErr::Refuse(why)) => { if let Some(sym) = ending(&run, false) { ctx.violation(i, &format!("C17/cli/xe/{}/{}/{}", sel_kind, frag_kind, sym), &format!("unusable request ({}) :: status {:?} stderr {} stdout {} :: {}", why, run.code, crate::util::truncate(&run.stderr, 200), crate::util::truncate(&run.stdout, 200), ctxs(&args)), &[("doc", &text), ("expr", &expr), ("value", &value)]); } else { ctx.count("xe/refused-as-expected"); } }
+                        Ok(want) => {
+                            if let Some(sym) = ending(&run, true) { ctx.violation(i, &format!("C17/cli/xe/{}/{}/{}", sel_kind, frag_kind, sym), &format!("status {:?} signal {:?} stderr {} :: {}", run.code, run.signal, crate::util::truncate(&run.stderr, 300), ctxs(&args)), &[("doc", &text), ("expr", &expr), ("value", &value)]); }
+                            else if let Some(why) = ref_disagrees(want, &run.stdout) { ctx.violation(i, &format!("C17/cli/xe/{}/{}/wrong-result", sel_kind, frag_kind), &format!("{} :: output {} :: {}", why, crate::util::truncate(&run.stdout, 400), ctxs(&args)), &[("doc", &text), ("expr", &expr), ("value", &value)]); }
+                            else { ctx.count("xe/agree"); }
+                            if i % 6 == 1 { let a2 = base_args(vec!["--xpath".into(), expr.clone(), "--value".into(), value.clone()]); if let Ok(r2) = run_tool("xe", &a2, stdin) { ctx.count("xe/indented"); if let Some(sym) = ending(&r2, true) { ctx.violation(i, &format!("C17/cli/xe/{}/{}/indented/{}", sel_kind, frag_kind, sym), &ctxs(&a2), &[("doc", &text), ("expr", &expr), ("value", &value)]); } else if !crate::refxml::parse(&r2.stdout, true).wf { ctx.violation(i, &format!("C17/cli/xe/{}/{}/indented/not-well-formed", sel_kind, frag_kind), &format!("output {} :: {}", crate::util::truncate(&r2.stdout, 300), ctxs(&a2)), &[("doc", &text), ("expr", &expr), ("value", &value)]); } } }
+                        }
+                    }
+                }
+            }
+        }
+        if via_file { let _ = std::fs::remove_file(&path); }
+        // ---- unusable input: error message and non-zero status, never a crash
+        if i % 4 == 0 {
+            let bad: Vec<(&str, &str, Vec<String>, Option<String>)> = vec![
+                ("xq", "ill-formed-document", vec!["--xpath".into(), "//*".into()], Some(format!("{}<", text))),
+                ("xq", "ill-formed-document", vec!["--xpath".into(), "/".into()], Some("<a></b>".into())),
+                ("xq", "empty-document", vec!["--xpath".into(), "/".into()], Some(String::new())),
+                ("xq", "bad-expression", vec!["--xpath".into(), r.pick_s(&["//*[", "((", "//a b", "", "$v", "nosuch()", "//q:a", "1 +", "//*[1"]).to_string()], Some(text.clone())),
+                ("xq", "missing-xpath", vec![], Some(text.clone())),
+                ("xq", "xpath-twice", vec!["--xpath".into(), "/".into(), "--xpath".into(), "/".into()], Some(text.clone())),
+                ("xq", "missing-file", vec!["--xpath".into(), "/".into(), "/nonexistent/c17.xml".into()], None),
+                ("xq", "bad-setns", vec!["--xpath".into(), "/".into(), "--setns".into(), r.pick_s(&["p", "p=u", "x:p=u", "xmlns:p", "=u"]).to_string()], Some(text.clone())),
+                ("xe", "ill-formed-value", vec!["--xpath".into(), "//*".into(), "--value".into(), r.pick_s(&["<a>", "</a>", "a<", "&nosuch;", "<a></b>", "&", "<![CDATA[x"]).to_string()], Some(text.clone())),
+                ("xe", "missing-value", vec!["--xpath".into(), "//*".into()], Some(text.clone())),
+                ("xe", "bad-expression", vec!["--xpath".into(), r.pick_s(&["//*[", "$v", "", "//q:a"]).to_string(), "--value".into(), "x".into()], Some(text.clone())),
+                ("xe", "ill-formed-document", vec!["--xpath".into(), "//*".into(), "--value".into(), "x".into()], Some("<a><b></a>".into())),
+            ];
+            let (t, kind, args, si) = &bad[(i as usize / 4) % bad.len()];
+            ctx.evaluations += 1; ctx.count(&format!("unusable/{}/{}", t, kind));
+            match run_tool(t, args, si.as_deref()) {
+                Err(_) => ctx.inconclusive("spawn_failed"),
+                Ok(run) => if let Some(sym) = ending(&run, false) { ctx.violation(i, &format!("C17/cli/{}/unusable/{}/{}", t, kind, sym), &format!("status {:?} stderr {} stdout {} :: args {:?}", run.code, crate::util::truncate(&run.stderr, 200), crate::util::truncate(&run.stdout, 200), args), &[("doc", si.as_deref().unwrap_or("")), ("args", &args.join(" "))]); } else { ctx.count("unusable/refused"); }
+            }
+        }
+    }
+}
+
+fn selected_indexes(tree: &RTree, ast: &xp::Expr, ns: &[(String, String)]) -> Vec<usize> {
+    let env = xp::Env { tree, ns: ns.to_vec(), default_ns: None, dev: xp::Dev::default(), tainted: std::cell::Cell::new(false) };
+    match env.eval(ast, xp::Cx { node: 0, pos: 1, size: 1 }) { Ok(xp::RV::Nodes(v)) => v, _ => vec![] }
+}
+
+/// Some((symptom, detail)) if xq's output is not exactly the expected selection
+fn xq_output_check(doc: &Doc, tree: &RTree, exp: &Outcome, stdout: &str) -> Option<(String, String)> {
+    match exp {
+        Outcome::Bool(b) => if stdout.trim_end_matches('\n') == if *b { "true" } else { "false" } { None } else { Some(("wrong-boolean".into(), format!("expected {}", b))) },
+        Outcome::Num(n) => { let t = stdout.trim(); let got: f64 = match t { "inf" | "Infinity" => f64::INFINITY, "-inf" | "-Infinity" => f64::NEG_INFINITY, "NaN" => f64::NAN, _ => match t.parse() { Ok(v) => v, Err(_) => return Some(("number-not-printed".into(), format!("{:?}", t))) } }; if (got.is_nan() && n.is_nan()) || got == *n { None } else { Some(("wrong-number".into(), format!("expected {}", n))) } }
+        Outcome::Str(s) => if stdout.strip_suffix('\n') == Some(s.as_str()) { None } else { Some(("wrong-string".into(), format!("expected {:?}", s))) },
+        Outcome::Err(e) => Some(("value-where-error-expected".into(), e.clone())),
+        Outcome::Nodes(locs) => {
+            let body = stdout.strip_suffix('\n').unwrap_or(stdout);
+            let lines: Vec<&str> = if stdout.is_empty() { vec![] } else { body.split('\n').collect() };
+            if lines.len() != locs.len() { return Some(("record-count".into(), format!("{} records for {} selected nodes", lines.len(), locs.len()))); }
+            for (k, loc) in locs.iter().enumerate() {
+                let n = tree.nodes.iter().position(|x| &x.locator == loc)?;
+                let nd = &tree.nodes[n];
+                let rec = lines[k];
+                let bad = |why: String| Some((format!("record/{:?}", nd.kind), format!("record #{} {:?} for {}: {}", k, rec, loc, why)));
+                match nd.kind {
+                    RKind::Root => { if let Some(w) = ref_disagrees(doc, rec) { return bad(w); } }
+                    RKind::Elem => {
+                        let mut d2 = doc.clone(); let ents = model::Entities::of(doc);
+                        let e = match elem_at_mut(&mut d2, &ents, loc) { Some(e) => e.clone(), None => return bad("model navigation failed".into()) };
+                        if e.prefix.is_some() || subtree_uses_inherited_ns(&e) { continue; }
+                        let sub = Doc { decl: None, pre: vec![], doctype: None, mid: vec![], root: e, post: vec![] };
+                        if let Some(w) = ref_disagrees(&sub, rec) { return bad(w); }
+                    }
+                    RKind::Text | RKind::Comment | RKind::PI => {
+                        let wrapped = format!("<x>{}</x>", rec);
+                        let child = match nd.kind { RKind::Text => Node::Text(nd.value.clone()), RKind::Comment => Node::Comment(nd.value.clone()), _ => Node::PI(nd.local.clone(), if nd.value.is_empty() { None } else { Some(nd.value.clone()) }) };
+                        let sub = Doc { decl: None, pre: vec![], doctype: None, mid: vec![], root: Elem { local: "x".into(), children: vec![child], ..Default::default() }, post: vec![] };
+                        if let Some(w) = ref_disagrees(&sub, &wrapped) { return bad(w); }
+                    }
+                    RKind::Attr => {
+                        if nd.prefix.is_some() { continue; }
+                        let wrapped = format!("<x {}/>", rec);
+                        let sub = Doc { decl: None, pre: vec![], doctype: None, mid: vec![], root: Elem { local: "x".into(), attrs: vec![Attr { prefix: None, local: nd.local.clone(), value: nd.value.chars().map(|c| if matches!(c, '\t' | '\n' | '\r') { APiece::CharRef(c, false) } else { APiece::Text(c.to_string()) }).collect() }], ..Default::default() }, post: vec![] };
+                        if let Some(w) = ref_disagrees(&sub, &wrapped) { return bad(w); }
+                    }
+                    RKind::Ns => {}
+                }
+            }
+            None
+        }
+        _ => None,
+    }
+}
+
+/// a subtree printed on its own loses the declarations of its ancestors: such records are only counted
+fn subtree_uses_inherited_ns(e: &Elem) -> bool {
+    fn walk(e: &Elem, bound: &mut Vec<String>, dflt: &mut bool) -> bool {
+        let mark = bound.len(); let d0 = *dflt;
+        for (p, _) in &e.nsdecls { match p { Some(p) => bound.push(p.clone()), None => *dflt = true } }
+        let mut bad = false;
+        if let Some(p) = &e.prefix { if !bound.contains(p) { bad = true; } }
+        for a in &e.attrs { if let Some(p) = &a.prefix { if p != "xml" && !bound.contains(p) { bad = true; } } }
+        for c in &e.children { if let Node::Elem(x) = c { if walk(x, bound, dflt) { bad = true; } } }
+        bound.truncate(mark); *dflt = d0;
+        bad
+    }
+    // an inherited default namespace changes the expanded names of unprefixed elements as well
+    walk(e, &mut vec![], &mut false)
+}
+
+pub fn witness(f: &[String], _: &mut Ctx) -> Option<String> {
+    // fields: tool, stdin document, args joined by U+0001, expectation ("ok" | "error"), optional expected-output check is not replayed
+    let (t, doc, args, want) = (f.first()?, f.get(1)?, f.get(2)?, f.get(3)?);
+    let args: Vec<String> = args.split('\u{1}').map(|s| s.to_string()).collect();
+    let run = run_tool(t, &args, Some(doc)).ok()?;
+    ending(&run, want == "ok").map(|s| format!("C17/cli/{}/{}", t, s)).or_else(|| { if let Some(expect_out) = f.get(4) { if &run.stdout != expect_out { return Some(format!("C17/cli/{}/wrong-result", t)); } } None })
+}
